@@ -37,7 +37,8 @@ func shard() int  { return envInt("VERIF_SHARD", 0) }
 
 // budget returns this process' share of the per-run case budget of the current tier.
 func budget(quick, thorough int) int {
-	n := quick
+	// the per-test quick numbers were sized for ~3 s; the quick tier runs three times that
+	n := quick * envInt("VERIF_QUICK_MULT", 3)
 	if tier() == "thorough" {
 		n = thorough
 	}
